@@ -43,6 +43,14 @@ def _mk_self(ctx, name='self'):
     return sym(name, attrs={'algebra': alg}, isinstance_of=('MultiVector',)), alg, r
 
 
+def _recognised(r, alg, meth):
+    """The delegation clauses compare the result with `algebra.<operator>(operands)`.  A result of any other form (an operator reached
+    through another object, a helper, a composed expression) cannot be compared that way: undecided, the stand-ins decide."""
+    from kvc.values import OutOfSubset
+    if not (isinstance(r, Rec) and r.kind == 'call' and isinstance(r.parts[0], Rec) and r.parts[0].kind == 'attr' and r.parts[0].parts[0] is alg):
+        raise OutOfSubset(f'MultiVector.{meth}: the result is not a call of an operator of self.algebra (contract does not apply): {r!r}'[:200])
+
+
 def vc_mv_delegations(H, methods_binary=None, methods_unary=None, scalar_left=False):
     for meth, (op, refl) in BINARY.items():
         if methods_binary is not None and meth not in methods_binary:
@@ -57,6 +65,7 @@ def vc_mv_delegations(H, methods_binary=None, methods_unary=None, scalar_left=Fa
             r = clo(me, other)
             args = (other, me) if refl else (me, other)
             exp = Rec('call', Rec('attr', alg, op), args, {})
+            _recognised(r, alg, meth)
             ok = same(r, exp)
             # scalar_left (C11): the reflected forms are only reached with a plain number on the left; for these operators
             # number op x and x op number are the same element, so either operand order is accepted there
@@ -77,6 +86,7 @@ def vc_mv_delegations(H, methods_binary=None, methods_unary=None, scalar_left=Fa
             clo = H.closure(interp, fuc)
             r = clo(me)
             exp = Rec('call', Rec('attr', alg, op), (me,), {})
+            _recognised(r, alg, meth)
             ctx.oblige(f'post: {meth} == algebra.{op}(self)', bool(same(r, exp)), meta={'got': repr(r), 'expected': repr(exp)})
             return r
         H.run_paths(fuc, '', body)
